@@ -46,12 +46,14 @@ class Module(object):
                         self.assigns[t.id] = node.value
             elif toplevel and isinstance(node, (ast.Import, ast.ImportFrom)):
                 self._index_import(node)
+            elif toplevel and isinstance(node, ast.AugAssign) and isinstance(node.target, ast.Name):
+                self.assigns.setdefault(node.target.id, node.value)
             elif isinstance(node, (ast.If, ast.Try, ast.With, ast.For, ast.While)):
                 # nested defs inside compound statements (closures defined in branches)
                 for fld in ("body", "orelse", "finalbody"):
                     sub = getattr(node, fld, None)
                     if sub:
-                        self._index(sub, prefix, toplevel=toplevel)
+                        self._index(sub, prefix, toplevel=toplevel and not isinstance(node, (ast.For, ast.While, ast.With)))
                 if isinstance(node, ast.Try):
                     for h in node.handlers:
                         self._index(h.body, prefix, toplevel=toplevel)
